@@ -173,6 +173,8 @@ def run(tier):
     killed_mid_send(chk, tier, wd)
     # d3) the consumer is already blocked waiting for the next result when the worker is ended
     blocked_consumers(chk, tier, wd)
+    # d4) a pool worker killed during a run, its own stream read directly after the Pool has dropped its endpoint
+    dead_pool_workers(chk, tier, wd)
     # e) remote: child killed while the parent-side forwarding thread is paused at each of its lines
     forwarding(chk, tier, wd)
     cleanup(wd)
@@ -305,6 +307,95 @@ def blocked_consumers(chk, tier, wd):
         if probs:
             chk.violation('%s:%s:%s-consumer:%s' % (probs[0], kind_of(sp['cls']), sp['consumer'], sp['how'] + ('-uncooperative' if sp['target'] == 'swallow' else '')),
                           '%s, %s consumer blocked waiting when the worker (%s target) was ended by %s: %s; %s' % (sp['cls'], sp['consumer'], sp['target'], sp['how'], ', '.join(probs), short(e, 300)), {'spec': sp, 'event': e})
+
+
+def pool_case(spec, log):
+    """A worker of a Pool is killed during a run (the Pool reads EOF from its pipe and forgets it); afterwards the
+    worker's own stream is read directly."""
+    import logging
+    import queue
+    import signal
+    import time
+    logging.disable(logging.CRITICAL)
+    from vlib import vtargets
+    from pyworkers.pool import Pool, PoolError
+    from pyworkers.worker import WorkerType
+    server = None
+    try:
+        p = Pool(vtargets.pool_target, retry=True, close_timeout=2)
+        with p:
+            for k in spec['kinds']:
+                kw = {}
+                if k == 'REMOTE':
+                    if server is None:
+                        from pyworkers.remote_server import spawn_server
+                        server = spawn_server(('127.0.0.1', 0))
+                    kw['host'] = server.addr
+                p.add_worker(WorkerType[k], args=[None, []], **kw)
+            victim = [w for w in p.workers if not w.is_thread][0]
+            killed = []
+
+            def cb(worker, event, *a):
+                if event == 'finished' and not killed:
+                    killed.append(victim.pid)
+                    os.kill(victim.pid, signal.SIGKILL)
+                    time.sleep(0.3)
+            try:
+                ret = p.run(iter(range(spec['n'])), worker_callback=cb, worker_extra_pending_inputs=1)
+                outcome = 'returned:%d' % len(ret)
+            except PoolError:
+                outcome = 'PoolError'
+            reads = {}
+            for i, w in enumerate(p.workers):
+                if w.is_alive():
+                    continue
+                r = {}
+                try:
+                    r['iter'] = 'stop:%d' % len(list(w.results_iter()))
+                except BaseException as e:  # noqa
+                    r['iter'] = 'raised:' + type(e).__name__
+                for blk in (False, True):
+                    try:
+                        w.next_result(block=blk)
+                        r['next_%s' % blk] = 'value'
+                    except queue.Empty:
+                        r['next_%s' % blk] = 'Empty'
+                    except BaseException as e:  # noqa
+                        r['next_%s' % blk] = 'raised:' + type(e).__name__
+                reads[str(i)] = r
+            log.ev('pool_reads', outcome=outcome, killed=bool(killed), reads=reads)
+        return {'ok': True}
+    finally:
+        if server is not None:
+            try:
+                server.terminate(timeout=1, force=True)
+            except BaseException:  # noqa
+                pass
+
+
+def dead_pool_workers(chk, tier, wd):
+    jobs = [dict(kinds=k, n=n) for k in (['PROCESS', 'PROCESS'], ['REMOTE', 'PROCESS'], ['PROCESS', 'THREAD']) for n in (6, 12)]
+
+    def one(ij):
+        i, sp = ij
+        res = run_case('checks.c06:pool_case', sp, os.path.join(wd, 'pc%d' % i), timeout=120)
+        cleanup(res['dir'])
+        return sp, res
+
+    for sp, res in pmap(one, list(enumerate(jobs)), 6):
+        ev = [e for e in res['events'] if e.get('ev') == 'pool_reads']
+        chk.case(('dead-pool-worker', tuple(sp['kinds']), sp['n']))
+        chk.count('dead_pool_worker_cases')
+        if not ev:
+            chk.inconclusive('pool case incomplete', {'spec': sp, 'stderr': res['stderr'][-400:], 'timed_out': res['timed_out']})
+            continue
+        for i, r in ev[0]['reads'].items():
+            chk.count('dead_pool_workers_read')
+            bad = [k + '=' + v for k, v in r.items() if v.startswith('raised') or (k.startswith('next') and v != 'Empty')]
+            if bad:
+                chk.violation('%s:%s:dead-pool-worker-read-directly' % (bad[0].split('=')[1].replace('raised:', 'stream-read-raised-'), sp['kinds'][0].capitalize()),
+                              'pool %s, a worker SIGKILLed during the run, its stream read directly afterwards: %s' % (sp['kinds'], r), {'spec': sp, 'event': ev[0]})
+                break
 
 
 def killed_mid_send(chk, tier, wd):
